@@ -39,7 +39,7 @@ func genTStep(rt *rapid.T, nc int, hostile bool) TStep {
 	if hostile && rapid.IntRange(0, 1).Draw(rt, "hostile") == 0 {
 		st := TStep{Op: "HostileStream", Life: -1}
 		st.C = rapid.IntRange(0, nc-1).Draw(rt, "c")
-		st.N = rapid.IntRange(0, 5).Draw(rt, "mode")
+		st.N = rapid.IntRange(0, 6).Draw(rt, "mode")
 		st.Seed = rapid.Uint64Range(0, 1<<24).Draw(rt, "hseed")
 		st.Cuts = rapid.SampledFrom([]int{1, 1, 2, 3, 7, 1000}).Draw(rt, "cuts")
 		if rapid.IntRange(0, 5).Draw(rt, "onControl") == 0 {
@@ -278,6 +278,21 @@ func TestC16(t *testing.T) { runTCPProp(t, "C16", false, c16NonTrivial) }
 
 func TestC09Stream(t *testing.T) {
 	runTCPProp(t, "C09", true, func(st *Stats) bool {
-		return has(st, "hostile:stream-header-grid") || has(st, "hostile:frames-then-garbage") || has(st, "hostile-on-live-control-connection") || (has(st, "tcp:allocate") && (has(st, "hostile:bit-flips") || has(st, "hostile:hostile-attribute-truncated")))
+		return has(st, "hostile:stream-header-grid") || has(st, "hostile:oversize-complete-frame") || has(st, "hostile:frames-then-garbage") || has(st, "hostile-on-live-control-connection") || (has(st, "tcp:allocate") && (has(st, "hostile:bit-flips") || has(st, "hostile:hostile-attribute-truncated")))
+	})
+}
+
+// TestC03TCP: the ConnectionBind / Connect part of C03 (other users' valid credentials on an
+// existing allocation or connection id must change nothing).
+func TestC03TCP(t *testing.T) {
+	runTCPProp(t, "C03", false, func(st *Stats) bool {
+		return has(st, "tcp:bind-other-user") && has(st, "tcp:bind-success")
+	})
+}
+
+// TestC04TCP: isolation of TCP allocations (one client's connections never affect another's).
+func TestC04TCP(t *testing.T) {
+	runTCPProp(t, "C04", false, func(st *Stats) bool {
+		return st.Labels["tcp:allocate"] >= 2 && st.Labels["tcp:connect-success"]+st.Labels["tcp:inbound-announced"] >= 2
 	})
 }
